@@ -272,6 +272,16 @@ def removeFromParent (ms : Array (Motion σ α)) (m : Nat) : Array (Motion σ α
     | none => ms
     | some p => ms.modify p (fun pm => { pm with children := pm.children.erase m })
 
+/-- the body of the `for` loop of `updateChildCosts(m)` for child `c`:
+`c->cost = combine(m->cost, c->incCost); updateChildCosts(c)` (`recur` is the recursive call). -/
+def childStep (o : Obj σ α) (recur : Array (Motion σ α) → Nat → Array (Motion σ α) × Bool) (m : Nat)
+    (acc : Array (Motion σ α) × Bool) (c : Nat) : Array (Motion σ α) × Bool :=
+  match acc.1[m]?, acc.1[c]? with
+  | some cur, some cm =>
+    let r := recur (acc.1.set! c { cm with cost := o.combine cur.cost cm.incCost }) c
+    (r.1, acc.2 || r.2)
+  | _, _ => acc
+
 /-- `updateChildCosts(m)`: `child->cost = combine(m->cost, child->incCost)`, recursively.
 Returns the array and whether the fuel ran out. -/
 def updateChildCosts (o : Obj σ α) : Nat → Array (Motion σ α) → Nat → Array (Motion σ α) × Bool
@@ -282,14 +292,7 @@ def updateChildCosts (o : Obj σ α) : Nat → Array (Motion σ α) → Nat → 
   | fuel + 1, ms, m =>
     match ms[m]? with
     | none => (ms, false)
-    | some mm =>
-      mm.children.foldl (fun (acc : Array (Motion σ α) × Bool) c =>
-        match acc.1[m]?, acc.1[c]? with
-        | some cur, some cm =>
-          let ms' := acc.1.set! c { cm with cost := o.combine cur.cost cm.incCost }
-          let (ms'', out) := updateChildCosts o fuel ms' c
-          (ms'', acc.2 || out)
-        | _, _ => acc) (ms, false)
+    | some mm => mm.children.foldl (childStep o (updateChildCosts o fuel) m) (ms, false)
 
 def validOf (valid : List (Nat × Int)) (i : Nat) : Int :=
   match valid.find? (·.1 = i) with
@@ -382,6 +385,31 @@ structure Grown (σ α δ : Type) where
   incs : List α
   nbhP : List (Nat × Nat)
 
+/-- `incCosts[i] = motionCost(nbh[i]->state, motion->state)` -/
+def nbhIncs (o : Obj σ α) (ms : Array (Motion σ α)) (dstate : σ) (nbh : List Nat) : List α :=
+  nbh.map (fun ni => match ms[ni]? with
+    | some m => o.motionCost m.state dstate
+    | none => o.identity)
+
+/-- `costs[i] = combineCosts(nbh[i]->cost, incCosts[i])` -/
+def nbhCosts (o : Obj σ α) (ms : Array (Motion σ α)) (nbh : List Nat) (incs : List α) : List α :=
+  (nbh.zip incs).map (fun p => match ms[p.1]? with
+    | some m => o.combine m.cost p.2
+    | none => o.identity)
+
+/-- the chosen neighbour's entry of a cache, or the value computed for `nmotion` before the loop. -/
+def pickVal {β : Type} (oi : Option Nat) (l : List β) (d : β) : β :=
+  match oi with
+  | some i => l.getD i d
+  | none => d
+
+/-- `nn_->add(motion); motion->parent->children.push_back(motion)` -/
+def insertMotion (s1 : St σ α δ) (dstate : σ) (par : Nat) (cost inc : α) (tie : Bool) : St σ α δ :=
+  let newMotion : Motion σ α :=
+    { state := dstate, parent := some par, cost := cost, incCost := inc, children := [], inGoal := false }
+  { s1 with motions := (s1.motions.push newMotion).modify par (fun m => { m with children := m.children ++ [s1.motions.size] }),
+            tie := s1.tie || tie }
+
 /-- `getNeighbors`, the cost caches, the choose-parent loop (delayed collision checking) and the
 insertion of the new motion under the chosen parent. -/
 def growInsert (o : Obj σ α) (sp : Space σ δ) (s : St σ α δ) (nmotion : Nat) (nm : Motion σ α) (dstate : σ) :
@@ -391,12 +419,8 @@ def growInsert (o : Obj σ α) (sp : Space σ δ) (s : St σ α δ) (nmotion : N
   -- getNeighbors
   let nk := nearestK sp s.motions dstate (sp.kNearest s.motions.size)
   let nbh := nk.1
-  let incs := nbh.map (fun ni => match s.motions[ni]? with
-    | some m => o.motionCost m.state dstate
-    | none => o.identity)
-  let costs := (nbh.zip incs).map (fun p => match s.motions[p.1]? with
-    | some m => o.combine m.cost p.2
-    | none => o.identity)
+  let incs := nbhIncs o s.motions dstate nbh
+  let costs := nbhCosts o s.motions nbh incs
   -- sort positions by cost with std::sort (CostIndexCompare = isCostBetterThan on costs[i], costs[j])
   let costArr := costs.toArray
   let sc := stdSort (fun i j => match costArr[i]?, costArr[j]? with
@@ -404,23 +428,8 @@ def growInsert (o : Obj σ α) (sp : Space σ δ) (s : St σ α δ) (nmotion : N
     | _, _ => false) (Array.range nbh.length)
   let cands := sc.1.toList.map (fun p => (p, nbh.getD p 0))
   let cp := chooseParent sp s.motions nmotion dstate cands s []
-  let par := match cp.1 with
-    | some i => nbh.getD i nmotion
-    | none => nmotion
-  let inc := match cp.1 with
-    | some i => incs.getD i inc0
-    | none => inc0
-  let cost := match cp.1 with
-    | some i => costs.getD i cost0
-    | none => cost0
-  -- add motion to the tree
-  let s1 := cp.2.2
-  let new := s1.motions.size
-  let newMotion : Motion σ α :=
-    { state := dstate, parent := some par, cost := cost, incCost := inc, children := [], inGoal := false }
-  let ms := (s1.motions.push newMotion).modify par (fun m => { m with children := m.children ++ [new] })
-  { st := { s1 with motions := ms, tie := s1.tie || nk.2 || sc.2 }, new := new, valid := cp.2.1, incs := incs,
-    nbhP := (List.range nbh.length).zip nbh }
+  { st := insertMotion cp.2.2 dstate (pickVal cp.1 nbh nmotion) (pickVal cp.1 costs cost0) (pickVal cp.1 incs inc0) (nk.2 || sc.2),
+    new := cp.2.2.motions.size, valid := cp.2.1, incs := incs, nbhP := (List.range nbh.length).zip nbh }
 
 /-- from `getNeighbors` to the end of the rewiring loop. Returns the state, the new motion's index and
 `checkForSolution`. -/
